@@ -365,6 +365,14 @@ class Normalizer:
                 return self.proj(b2, OK if w2 == "ok" else SOME, 0)
         if base[0] == "ctor" and last(base[1]) == last(variant) and isinstance(idx, int) and idx < len(base[2]):
             return base[2][idx]
+        if base[0] == "ite" and last(variant) in ("Some", "Ok", "Err", "None"):
+            # the payload of variant V of `if c { Other(..) } else { x }` can only come from x
+            a, b = base[2], base[3]
+            other = lambda y: y[0] == "ctor" and last(y[1]) in ("Some", "None", "Ok", "Err") and last(y[1]) != last(variant)      # noqa: E731
+            if other(a) and not other(b):
+                return self.proj(b, variant, idx)
+            if other(b) and not other(a):
+                return self.proj(a, variant, idx)
         if idx == 0 and last(variant) == "Some" and base[0] == "call" and isinstance(base[1], str) and len(base[2]) == 1:
             l = last(base[1])
             x = base[2][0]
